@@ -1129,6 +1129,223 @@ def c16(tier):
 CHECKS['C16'] = c16
 
 
+
+# ------------------------------------------------------------------------------------ C14 / C15
+def blank_row(a):
+    return {'a': a, 'ca': 0, 'caps': [0, 0, 0, 0, 0, 0], 'cat': [0, 0], 'reg': '??', 'regcp': cli.cps('??'), 'cs': [], 'alt': [], 'altg': [],
+            'alts': 32, 'sel': [], 'baro': [], 'sels': 32, 'sq': [], 'ss': 32, 'thr': [], 'vr': [], 'vrs': 32, 'lat': 0, 'lon': 0, 'dist': [],
+            'gs': [], 'tas': [], 'ias': [], 'mach': [], 'gm': [], 'trk': [], 'trks': 32, 'hdg': [], 'hdgs': 32, 'roll': [], 'tar': [],
+            'temp': [], 'wind': [], 'turb': [], 'hum': [], 'pres': [], 'ts': 0, 'pts': [], 'tts': [], 'hts': [], 'ltc': 0, 'ldf': 0, 'ver': []}
+
+
+def filled_row(a, kind, rng):
+    r = blank_row(a)
+    if kind == 'min':
+        r.update({'reg': 'A', 'regcp': cli.cps('A'), 'cs': [cli.cps('A')], 'alt': [0], 'altg': [0], 'sel': [0], 'baro': [0], 'sq': [0], 'vr': [0],
+                  'lat': 10, 'lon': 10, 'dist': [0], 'gs': [0], 'tas': [0], 'ias': [0], 'mach': [0], 'trk': [0], 'hdg': [0], 'roll': [0], 'tar': [0],
+                  'temp': [0], 'wind': [[0, 0]], 'turb': [0], 'hum': [0], 'pres': [0], 'ts': 0, 'pts': [0], 'tts': [0], 'hts': [0], 'ltc': 1, 'ldf': 4,
+                  'ver': [0], 'cat': [1, 0], 'ss': 78})
+    elif kind == 'max':
+        r.update({'reg': 'ZZ', 'regcp': cli.cps('ZZ'), 'cs': [cli.cps('ZZZZ9999')], 'alt': [99999], 'altg': [99999], 'sel': [65520], 'baro': [1210],
+                  'sq': [7777], 'vr': [32640], 'lat': 89999990, 'lon': 179999990, 'dist': [999900], 'gs': [999], 'tas': [999], 'ias': [999],
+                  'mach': [9990], 'trk': [359], 'hdg': [359], 'roll': [999], 'tar': [999], 'temp': [99990], 'wind': [[999, 359]], 'turb': [15],
+                  'hum': [100], 'pres': [2048], 'ts': 98000, 'pts': [150000], 'tts': [90000], 'hts': [10000], 'ltc': 31, 'ldf': 21, 'ver': [2],
+                  'cat': [4, 7], 'ss': 83, 'thr': [0x2072], 'alts': 0x2070, 'sels': 0x2081, 'vrs': 0x2086, 'trks': 0x2085, 'hdgs': 0x2083})
+    elif kind == 'neg':
+        r.update({'reg': 'IE', 'regcp': cli.cps('IE'), 'cs': [cli.cps('EIN12')], 'alt': [25], 'vr': [-9984], 'lat': -89999990, 'lon': -179999990,
+                  'dist': [100], 'roll': [-50], 'tar': [-16], 'temp': [-8000], 'ts': 5000, 'cat': [4, 3], 'sq': [7], 'mach': [820], 'gs': [5], 'trk': [7]})
+    else:   # random, all values fit
+        r.update({'reg': rng.choice(['US', 'DE', 'IE', '??', 'G']), 'cs': [cli.cps(''.join(rng.choice('ABCXYZ0189') for _ in range(rng.randrange(0, 9))))] if rng.random() < .7 else [],
+                  'alt': [rng.randrange(0, 60000)] if rng.random() < .7 else [], 'altg': [rng.randrange(0, 60000)] if rng.random() < .5 else [],
+                  'sel': [16 * rng.randrange(0, 3000)] if rng.random() < .5 else [], 'baro': [rng.randrange(800, 1211)] if rng.random() < .5 else [],
+                  'sq': [rng.choice([0, 7, 77, 1000, 1234, 7700, 7777])] if rng.random() < .7 else [],
+                  'vr': [64 * rng.randrange(-150, 151)] if rng.random() < .6 else [], 'gs': [rng.randrange(0, 1000)] if rng.random() < .6 else [],
+                  'tas': [rng.randrange(0, 1000)] if rng.random() < .5 else [], 'ias': [rng.randrange(0, 1000)] if rng.random() < .5 else [],
+                  'mach': [10 * rng.randrange(0, 100)] if rng.random() < .5 else [], 'trk': [rng.randrange(0, 360)] if rng.random() < .6 else [],
+                  'hdg': [rng.randrange(0, 360)] if rng.random() < .5 else [], 'roll': [rng.randrange(-50, 51)] if rng.random() < .5 else [],
+                  'tar': [rng.randrange(-16, 17)] if rng.random() < .5 else [], 'temp': [10 * rng.randrange(-800, 600)] if rng.random() < .4 else [],
+                  'wind': [[rng.randrange(0, 300), rng.randrange(0, 360)]] if rng.random() < .4 else [], 'turb': [rng.randrange(0, 16)] if rng.random() < .4 else [],
+                  'hum': [rng.randrange(0, 101)] if rng.random() < .4 else [], 'pres': [rng.randrange(0, 2049)] if rng.random() < .4 else [],
+                  'ts': rng.randrange(0, 90000), 'pts': [rng.randrange(0, 200000)] if rng.random() < .5 else [],
+                  'tts': [rng.randrange(0, 200000)] if rng.random() < .5 else [], 'hts': [rng.randrange(0, 200000)] if rng.random() < .5 else [],
+                  'ltc': rng.randrange(0, 32), 'ldf': rng.choice([0, 4, 5, 11, 17, 20, 21]), 'ver': [rng.randrange(0, 3)] if rng.random() < .5 else [],
+                  'cat': [rng.randrange(0, 5), rng.randrange(0, 8)], 'ss': rng.choice([32, 78, 80, 84, 83])})
+        r['regcp'] = cli.cps(r['reg'])
+        if rng.random() < .7:
+            r['lat'] = 10 * rng.randrange(-8999999, 9000000); r['lon'] = 10 * rng.randrange(-17999999, 18000000)
+            if rng.random() < .8:
+                r['dist'] = [100 * rng.randrange(0, 10000)]
+        for mk in ('alts', 'sels', 'vrs', 'trks', 'hdgs'):
+            r[mk] = rng.choice([32, 32, 0x2070, 0x2081, 0x2085, 0x2086, 34, 95])
+        if rng.random() < .2:
+            r['thr'] = [rng.choice([0x2071, 0x2072])]
+    return r
+
+
+def run_print(binary, cases, name):
+    """cases: list of dict(id, i, o, rows). Returns 'print' events."""
+    import subprocess
+    wd = vlib.workdir()
+    cf_ = os.path.join(wd, name + '.cases.ndjson')
+    vlib.write_ndjson(cf_, cases)
+    p = subprocess.run([binary, 'print', cf_], stdout=subprocess.PIPE, stderr=subprocess.PIPE, timeout=1200)
+    if p.returncode != 0:
+        raise ToolError('sqv print failed: %s' % p.stderr[-1000:].decode('utf-8', 'replace'))
+    out = p.stdout.decode('utf-8', 'replace').split('\n')
+    blocks, cur = {}, None
+    for l in out:
+        if l.startswith('@@CASE '):
+            cur = int(l.split()[1]); blocks[cur] = []
+        elif l.startswith('@@END '):
+            cur = None
+        elif cur is not None:
+            blocks[cur].append(l)
+    events = []
+    for c in cases:
+        b = blocks.get(c['id'])
+        if b is None or len(b) < 2:
+            raise ToolError('print case %s produced no output' % c['id'])
+        events.append({'e': 'print', 'i': len(events) + 1, 'flags': cli.cps(c['i']), 'order': cli.cps(c['o']), 'rows': c['rows'],
+                       'header': cli.cps(b[0]), 'sep': cli.cps(b[1]), 'lines': [cli.cps(x) for x in b[2:]]})
+    return events
+
+
+def cli_table_events(rng, n, orders):
+    """'print' events whose text is the last refresh of the real CLI and whose rows are the implementation's own table
+    (in-process run of the same lines)"""
+    binary = vlib.build_cli('release')
+    hb = vlib.build_harness('release')
+    events = []
+    for k in range(n):
+        flags = rng.choice(all_flagsets())
+        order = orders[k % len(orders)]
+        base = rng.choice([[], ['-U'], ['-R', '-U']])
+        pool = []
+        for a in [0x480000 + rng.getrandbits(12) for _ in range(rng.randrange(1, 6))]:
+            pool += other_format_frames(a, rng) + valid_value_frames(a, rng)
+        lines = [rng.choice(pool) for _ in range(rng.randrange(10, 80))]
+        obs = '53.0,-8.0'
+        opts = base + ['--observer-coord=' + obs, '-i', flags, '-o', order]
+        r = cli.run_cli(binary, opts + ['--update=-1'], data=''.join(l + '\n' for l in lines).encode(), timeout=60)
+        snaps = [s_ for s_ in cli.snapshots(r['out']) if 'rows' in s_]
+        if r['code'] != 0 or not snaps:
+            raise ToolError('CLI run failed for table comparison: code %s' % r['code'])
+        tr = vlib.sqv_exec(hb, [{'c': 'reset', 'opts': ['-i', 'Q'] + base + ['--observer-coord=' + obs], 'slot': 0}] +
+                           [run1(l) for l in lines] + [{'c': 'dump'}], 'clitab%d' % k)
+        dump = [e for e in vlib.read_ndjson(tr) if e['e'] == 'dump'][-1]
+        rows = []
+        for x in dump['rows']:
+            row = x['row']
+            for f_ in ('pts', 'tts', 'hts'):
+                row[f_] = [dump['now'] - row[f_][0]] if row[f_] else []
+            row['ts'] = dump['now'] - row['ts']
+            rows.append(row)
+        last = snaps[-1]
+        events.append({'e': 'print', 'i': len(events) + 1, 'flags': cli.cps(flags), 'order': cli.cps(order), 'rows': rows,
+                       'header': cli.cps(last['header']), 'sep': cli.cps(last['sep']), 'lines': [cli.cps(x) for x in last['rows']]})
+    return events
+
+
+def all_flagsets():
+    out = []
+    for m in range(32):
+        out.append(''.join(ch for k, ch in enumerate('aAews') if m >> k & 1))
+    return out
+
+
+def c14(tier):
+    rep = Report('C14', tier)
+    rng = random.Random(vlib.seed())
+    binary = vlib.build_harness('release')
+    cases = []
+    n_rand = 4 if tier == 'quick' else 40
+    for fs in all_flagsets():
+        rows = [blank_row(0x100001), filled_row(0x200002, 'min', rng), filled_row(0xA00003, 'max', rng), filled_row(0x4CA004, 'neg', rng)]
+        rows += [filled_row(0x300000 + k, 'rand', rng) for k in range(n_rand)]
+        # each-field-varies rows: one field set on an otherwise blank row
+        full = filled_row(0x500000, 'max', rng)
+        for k, fld in enumerate(['cs', 'alt', 'altg', 'sel', 'baro', 'sq', 'vr', 'dist', 'gs', 'tas', 'ias', 'mach', 'trk', 'hdg', 'roll', 'tar', 'temp',
+                                 'wind', 'turb', 'hum', 'pres', 'ver', 'pts', 'tts', 'hts']):
+            r = blank_row(0x600000 + k)
+            r[fld] = full[fld]
+            rows.append(r)
+        r = blank_row(0x6000ff); r['lat'] = 52123450; r['lon'] = -8123450; rows.append(r)
+        r = blank_row(0x6000fe); r['lat'] = 52123450; rows.append(r)            # latitude only: no position shown
+        # values that do not fit their column (layout promise does not apply, cells unconstrained)
+        r = filled_row(0x700001, 'max', rng); r['dist'] = [12345600]; r['reg'] = 'ICAO1'; r['regcp'] = cli.cps('ICAO1'); rows.append(r)
+        cases.append({'id': len(cases), 'i': fs, 'o': rng.choice(['', 'sA', 'N', 'zz']), 'rows': rows})
+    # quiet flag and unknown letters mixed in
+    cases.append({'id': len(cases), 'i': 'xyzA', 'o': '', 'rows': [filled_row(0x200002, 'min', rng)]})
+    events = run_print(binary, cases, 'c14')
+    tr = os.path.join(vlib.workdir(), 'c14.trace.ndjson')
+    vlib.write_ndjson(tr, events)
+    rep.add_validation(vlib.validate([tr], 'C14'))
+    # CLI route: real decoding + real stdout; the expected row values are the implementation's own table (in-process, same input)
+    cli_events = cli_table_events(rng, 3 if tier == 'quick' else 40, ['sA', 'N', 'a', 'dV', ''])
+    tr2 = os.path.join(vlib.workdir(), 'c14cli.trace.ndjson')
+    vlib.write_ndjson(tr2, cli_events)
+    rep.add_validation(vlib.validate([tr2], 'C14'))
+    rep.extra['cli_refreshes_checked'] = len(cli_events)
+    rows_checked = sum(len(c['rows']) for c in cases)
+    rep.extra['rows_rendered'] = rows_checked
+    rep.rule = ('all 32 combinations of the -i groups x %d table rows each (all-blank, all-min, all-max with every source marker, negatives, one-field-only '
+                'rows for every optional column, position with one zero coordinate, %d random rows whose values all fit, and rows with values that do '
+                'not fit), built through the public Plane fields and printed by the real LegendHeaders / Planes::print; TLC parses the columns from the '
+                'printed header + separator and checks every cell, the line width, and group presence <=> flag. Non-trivial = refresh with rows; '
+                'distinct by (flags, rows)' % (len(cases[0]['rows']), n_rand))
+    rep.nontrivial = set('%s-%d' % (c['i'], c['id']) for c in cases)
+    vlib.nt_floor(rep, 30)
+    return rep
+
+
+def c15(tier):
+    rep = Report('C15', tier)
+    rng = random.Random(vlib.seed())
+    binary = vlib.build_harness('release')
+    keys = 'saAvVNSWEdDc'
+    orders = [''] + list(keys) + ['z', 'zz', 'Q'] + [a + b for a in 'saANd' for b in 'sAVWc'] + ['sz', 'zs', 'Az', 'xNy']
+    if tier == 'thorough':
+        orders += [a + b for a in keys for b in keys]
+    cases = []
+    vals = {'sq': [[], [0], [1200], [7700]], 'alt': [[], [0], [1000], [35000]], 'vr': [[], [-640], [0], [640]],
+            'lat': [0, -33500000, 52100000, 52900000, 53400000], 'lon': [0, -8600000, -8100000, 3900000, 151000000],
+            'dist': [[], [100], [900], [1500], [250000]], 'cat': [[0, 0], [4, 1], [4, 3], [2, 7]]}
+    ntab = 3 if tier == 'quick' else 30
+    for o in orders:
+        for t in range(ntab):
+            n = rng.randrange(1, 7)
+            rows = []
+            addrs = rng.sample(range(1, 0xFFFFFF), n)
+            for a in addrs:
+                r = blank_row(a)
+                r['sq'] = rng.choice(vals['sq']); r['alt'] = rng.choice(vals['alt']); r['vr'] = rng.choice(vals['vr'])
+                r['lat'] = rng.choice(vals['lat']); r['lon'] = rng.choice(vals['lon']) if r['lat'] else 0
+                if r['lat'] and not r['lon']:
+                    r['lat'] = 0
+                r['dist'] = rng.choice(vals['dist']); r['cat'] = rng.choice(vals['cat'])
+                rows.append(r)
+            cases.append({'id': len(cases), 'i': rng.choice(['', 'aAews', 'e']), 'o': o, 'rows': rows})
+    events = run_print(binary, cases, 'c15')
+    for e in cli_table_events(rng, 4 if tier == 'quick' else 60, ['sA', 'N', 'a', 'dV', '', 'W', 'v', 'c', 'A', 'zz']):
+        e['i'] = len(events) + 1
+        events.append(e)
+    tr = os.path.join(vlib.workdir(), 'c15.trace.ndjson')
+    vlib.write_ndjson(tr, events)
+    rep.add_validation(vlib.validate([tr], 'C15'))
+    rep.nontrivial = set('%s-%d' % (c['o'], c['id']) for c in cases if len(c['rows']) > 1)
+    rep.rule = ('%d tables of 1..6 rows over small value sets with blanks and ties (squawk, altitude, vertical rate, latitude/longitude within one '
+                'degree of each other, distances within 1 km, categories) x -o strings: empty, every key letter, unrecognised letters, %s; printed by '
+                'the real Planes::print. TLC checks: every aircraft exactly once; rows with a non-blank key monotone in the last recognised key '
+                '(s, a ascending, A descending, others either way); no recognised key => ascending address. Non-trivial = table with > 1 row' %
+                (len(cases), 'all two-letter combinations' if tier == 'thorough' else '29 two-letter combinations'))
+    vlib.nt_floor(rep, 50)
+    return rep
+
+
+CHECKS['C14'] = c14
+CHECKS['C15'] = c15
+
+
 # ---------------------------------------------------------------------------------------- replay
 def replay(prop, path):
     """re-executes the scenario of a replay file against the current tree and validates it again"""
